@@ -8,6 +8,7 @@ import (
 	"os"
 	"os/exec"
 	"path/filepath"
+	"runtime/debug"
 	"strings"
 	"testing"
 	"time"
@@ -22,6 +23,8 @@ const (
 	childEnvJournal = "C11_CHILD_JOURNAL" // journal path
 	childEnvServer  = "C11_CHILD_SERVER"  // (wire_child_test.go) file to which the child server writes its address
 )
+
+const childMaxStack = 16 << 20
 
 func journalAppend(path, line string) {
 	f, err := os.OpenFile(path, os.O_APPEND|os.O_CREATE|os.O_WRONLY|os.O_SYNC, 0o644)
@@ -48,6 +51,11 @@ func TestChildLoop(t *testing.T) {
 
 	h := fmt.Sprintf("%016x", hashBytes(b))
 	journalAppend(journal, "START "+h)
+
+	// The parsers bound their recursion by a nesting limit, so no input needs a large stack. With the runtime's default
+	// of 1 GB an unbounded recursion only shows on inputs of many megabytes; with this cap it shows at some ten thousand
+	// levels ("grows without bound" is the clause, the stack is the resource).
+	debug.SetMaxStack(childMaxStack)
 
 	res := runLoop(b, loopOpts{})
 
